@@ -9,7 +9,7 @@ Definition roots :=
    Front.Desugar.desugar, Front.Desugar.combo_weights, Front.Desugar.crossing_size_wo, Front.Desugar.hidden_accepts,
    Front.NestSem.nest_sem, Front.NestSem.nestable_b,
    Front.NestSem2.nest_sem2, Front.NestSem2.nestable_d_b, Front.NestSem2.groups2_b,
-   Front.NestSem3.nestable_c_b, Front.NestSem3.nestable_f_b, Front.NestSem4.nestable_s_b,
+   Front.NestSem3.nestable_c_b, Front.NestSem3.nestable_f_b, Front.NestSem4.nestable_s_b, Front.NestSem4.nest_sem2_own, Front.NestSem4.groups2_own_b,
    Front.CreateFlat.create_flat,
    Front.CreateOk.input_ok, Front.CreateOk.window_ok, Front.CreateOk.sustains_consistent, Front.CreateOk.paired, Front.CreateOk.in_flat,
    Front.DesugarSem.free_b, Front.DesugarSem.widen, Front.DesugarSem.orig,
